@@ -145,6 +145,36 @@ def ensure_gen(name, module, env_out="OUT", timeout=600, extra_env=None):
     return out
 
 
+def hiw_file(n=6):
+    """Input SHAPING (never a verdict): elements w of Fq2 for which the Fq2 product w^2 * w drives the accumulator of the two-term
+    sum of products (ImplMontSop's class 'two subtractions of q': u >= 2^256 + q) in its imaginary component.  The operands are
+    correlated (w^2, w), so they are found by search (about one candidate in 4*10^5) with exact integer arithmetic; a Jacobian
+    representative with z = 1/w makes normalisation compute exactly this product.  Deterministic, cached in build/gen."""
+    out = f"{BUILD}/gen/hiw.json"
+    if os.path.exists(out):
+        return out
+    import random
+    q = 0xB640000002A3A6F1D603AB4FF58EC74521F2934B1A7AEEDBE56F9B27E351457D
+    R = 1 << 256
+    rinv, qinv = pow(R, -1, q), pow(q, -1, R)
+    rnd = random.Random(0x6869)
+    found, trials, t0 = [], 0, time.time()
+    while len(found) < n and trials < 6_000_000:
+        trials += 1
+        b0, b1 = q - rnd.getrandbits(240), q - rnd.getrandbits(240)          # Montgomery components of w: just below q
+        w0, w1 = b0 * rinv % q, b1 * rinv % q
+        a0, a1 = (w0 * w0 - 2 * w1 * w1) % q * R % q, 2 * w0 * w1 % q * R % q   # Montgomery components of w^2
+        t = a0 * b1 + a1 * b0
+        m = (-t * qinv) % R
+        if (t + m * q) >> 256 >= R + q:
+            found.append(list(w1.to_bytes(32, "big") + w0.to_bytes(32, "big")))   # Fq2 byte order: imaginary part first
+    os.makedirs(f"{BUILD}/gen", exist_ok=True)
+    json.dump({"w": found, "trials": trials}, open(out + ".tmp", "w"))
+    os.replace(out + ".tmp", out)
+    log(f"[gen] hiw.json: {len(found)} elements in {trials} trials, {time.time() - t0:.1f}s")
+    return out
+
+
 # ------------------------------------------------------------------------------------------------ driver
 def run_driver(profile, suite, out, seed, n, tier="quick", extra=(), timeout=1200):
     binp = build_harness(profile)
@@ -153,6 +183,7 @@ def run_driver(profile, suite, out, seed, n, tier="quick", extra=(), timeout=120
         if os.path.exists(f):
             os.remove(f)
     cmd = [binp, suite, "--out", out, "--seed", str(seed), "--n", str(n), "--tier", tier] + list(extra)
+    os.environ["SM9_VERIF_HIW"] = hiw_file()
     r = sh(cmd, timeout=timeout, check=False)
     hang = None
     if os.path.exists(out + ".hang"):
